@@ -12,7 +12,7 @@ Streams
                        seeded per-task sleeps inside the workers (perturbed completion order), plus single-process runs of the real
                        Program under prescribed counter/execution-order schedules (harness/c09_runner.py). Every output file must
                        equal the baseline byte for byte except the '# coma ' line."""
-import os, sys, json, hashlib, subprocess, threading, time, shutil
+import os, sys, json, hashlib, subprocess, threading, time, shutil, random
 from ..driver import Stream
 from .. import common, pipeline as pl, e2e, e2e_streams as es
 from .C15 import AlignStream
@@ -345,4 +345,57 @@ class Schedules(Stream):
         return json.dumps([case['ds_seed'], case['modes'], case['extra']]) if recs else None
 
 
-STREAMS = [CounterPairs(), Schedules()]
+# ------------------------------------------------------------------------------------------------ (c) many (workload, worker count) pairs
+class WorkerCounts(Stream):
+    """many small data sets, each run once with one worker and once with a worker count drawn from 2..16: how the queries are handed to
+    the pool may depend on both the number of workers and the size of the workload, so the pairs are sampled broadly rather than a few
+    fixed counts on one data set"""
+    name = 'e2e_worker_counts'
+    model = False
+    parallel = True
+    mem_limit_gb = None
+    quick_n, thorough_n = 128, 900
+
+    def gen(self, rng, tier):
+        n = self.quick_n if tier == 'quick' else self.thorough_n
+        cases = []
+        for k in range(n):
+            cases.append(dict(ds_seed=rng.randint(1, 10 ** 9), nq=rng.randint(2, 26), nlab=rng.choice([60, 70, 90]), nref=rng.choice([1, 1, 2]),
+                              cpus=2 + k % 15, mode=rng.choice(['best', 'best', 'separate', 'joined', 'all'])))
+        return cases
+
+    def impl(self, case):
+        r = random.Random(case['ds_seed'])
+        ds = e2e.gen_mixed(r, nref=case['nref'], nlab=case['nlab'], nq=case['nq'])
+        ds['refs'] = [(i, es.half(l), [es.half(p) for p in ps]) for i, l, ps in ds['refs']]
+        ds['queries'] = [(i, es.half(l), sorted(set(es.half(p) for p in ps))) for i, l, ps in ds['queries']]
+        e2e.materialise(ds, 'c09w_%d' % case['ds_seed'])
+        rp, qp = os.path.join(ds['dir'], 'r.cmap'), os.path.join(ds['dir'], 'q.cmap')
+        args = ['-oM', case['mode']]
+        base = run_real(rp, qp, args, 1, False, None, True)
+        run = run_real(rp, qp, args, case['cpus'], False, None, False)
+        shutil.rmtree(ds['dir'], ignore_errors=True)
+        same = run['rc'] == base['rc'] and run['files'] == base['files']
+        nrec = len([l for l in base['files'].get('main', '').split('\n') if l and not l.startswith('#')])
+        out = dict(same=same, nrec=nrec, queries=len(ds['queries']), labels=sum(len(q[2]) for q in ds['queries']))
+        if not same:
+            out.update(base=dict(label='in-process -c 1', **base), run=dict(label='in-process -c %d' % case['cpus'], same=False, **run))
+        return out
+
+    def oracle(self, case, out):
+        if out.get('same'):
+            return []
+        if 'base' not in out:
+            return ['harness failure: %s' % str(out)[:300]]
+        return Schedules().oracle_mode(dict(ds_seed=case['ds_seed'], extra=['(%d queries, %d query labels)' % (out['queries'], out['labels'])]),
+                                       case['mode'], dict(base=out['base'], runs=[out['run']]))[:3]
+
+    def classify(self, case, out):
+        return ['cpus=%d' % case['cpus'], 'mode=' + case['mode'], 'queries=%s' % ('2-9' if out.get('queries', 0) < 10 else '10+'),
+                'records=%s' % ('0' if not out.get('nrec') else '1+'), 'references=%d' % case['nref']]
+
+    def nontrivial(self, case, out):
+        return json.dumps([case['ds_seed'], case['cpus'], case['mode']]) if out.get('nrec') else None
+
+
+STREAMS = [CounterPairs(), Schedules(), WorkerCounts()]
